@@ -64,6 +64,8 @@ def event_token(ev):
         return f"P@{t}:{sv}:{_o(mt)}:{'-' if rel is None else _b(rel)}:{code}:{_o(obs)}:{body}:{nr}:{mr}:{_b(il)}"
     if k in ("C", "E"):
         return f"{k}@{ev[1]}:{ev[2]}"
+    if k == "F":
+        return f"F@{ev[1]}:{ev[2]}:{_b(ev[3])}"
     return f"{k}@{ev[1]}"
 
 
@@ -238,6 +240,15 @@ class Runner:
     def do_E(self, ev):
         self.net.inject_error(errno.ECONNREFUSED, self.sockaddr(ev[2]))
 
+    def do_F(self, ev):
+        """["F", t, remote, on]: sendmsg() towards `remote` starts / stops raising EHOSTUNREACH
+        (a synchronous transport error; such scripts are judged by the oracle only)"""
+        addr = tuple(self.sockaddr(ev[2]))
+        if ev[3]:
+            self.net.send_errors[addr] = OSError(errno.EHOSTUNREACH, "No route to host")
+        else:
+            self.net.send_errors.pop(addr, None)
+
     def do_X(self, ev):
         self.shut = True
 
@@ -363,6 +374,7 @@ def run_script(script):
         "args": args,
         "same_tick_inputs": same_tick,
         "wire": r.net.sent,
+        "failed_sends": [(t, r.remote_id(d)) for (t, d) in r.net.failed_sends],
         "uniform_calls": [(vloop.ticks(a), vloop.ticks(b), vloop.ticks(v)) for (a, b, v) in r.pins.uniform_calls],
         "loop_exceptions": [str(c.get("exception") or c.get("message")) for c in loop.exceptions],
         "errors": r.errors,
